@@ -4,6 +4,8 @@ from __future__ import annotations
 import copy
 import re
 
+import onnx
+
 from vf import scriptgen, wellformed
 from vf.hyp import drive, st
 from vf.runner import Collector
@@ -36,7 +38,22 @@ def plan(tier, seed, budget):
 
 MUTATIONS = ["none", "none", "undefined_on_path", "return_in_branch", "return_in_loop", "augassign", "del", "try", "with", "comprehension",
              "chained_compare", "multi_target", "break_not_last", "bad_loop_bound", "arity_mismatch", "loop_var_after_loop", "while_non_name",
-             "graph_scan", "graph_scan_msdomain", "graph_capture_modified", "graph_capture_rebound_inside"]
+             "graph_scan", "graph_scan_msdomain", "graph_capture_modified", "graph_capture_rebound_inside", "call_same_name_two_domains"]
+# call_same_name_two_domains: the program calls two script functions that are both NAMED `fn` but live in different domains (legal: a function
+# is identified by domain + name); the model must define both.
+SCRIPT_FUNCTION_DOMAINS = {"this", "dom.a", "dom.b"}
+TWIN_SRC = '''
+from onnxscript.values import Opset as _Opset
+
+def _mk_twin(dom, k):
+    @script(dom, default_opset=op)
+    def fn(x):
+        return op.Mul(x, op.CastLike(op.Constant(value_float=k), x))
+    return fn
+
+twin_a = _mk_twin(_Opset("dom.a", 1), 2.0)
+twin_b = _mk_twin(_Opset("dom.b", 1), 10.0)
+'''
 # graph_capture_*: a nested @graph function (Scan body) reads a variable of the enclosing function that is re-assigned between the nested
 # definition and its use as an attribute - the graph would capture the stale value; the converter documents the refusal ("Outer scope
 # variable ... modified"). *_rebound_inside: the nested function also assigns the name after reading it (not even valid Python).
@@ -82,6 +99,15 @@ def mutate(prog, kind, draw):
         body.append(Assign(["zz2"], Call("Identity", [Var("lv")], {})))
         p.returns = [Var("zz2")]
         p.ret_types = [("INT64", 0)]
+        return p
+    if kind == "call_same_name_two_domains":
+        fp = [(n, dt, r) for n, dt, r in p.params if dt in ("FLOAT", "DOUBLE")]
+        if not fp:
+            return None
+        X = fp[0][0]
+        body.append(Raw(f"tw_sum = op.Add(twin_a({X}), twin_b({X}))"))
+        p.returns = list(p.returns) + [Var("tw_sum")]
+        p.ret_types = list(p.ret_types) + [(fp[0][1], fp[0][2])]
         return p
     if kind.startswith("graph_"):
         fp = [(n, dt, r) for n, dt, r in p.params if dt in ("FLOAT", "DOUBLE") and r >= 1]
@@ -154,6 +180,22 @@ def check_accepted(mod, prog):
         for k, msg in wellformed.check_model(mp, **WALK)[:3]:
             sub = _checker_class(msg) if k == "checker" else ""
             verdicts.append((f"model_proto:{k}{sub}", msg))
+        # every call to a script function of the program resolves to a FunctionProto of the model (the generator knows which domains hold
+        # script functions; the walker is lenient about schema-less nodes of foreign domains because contrib operators look the same)
+        defined = {(f.domain, f.name) for f in mp.functions}
+
+        def calls(g):
+            for n in g.node:
+                if n.domain in SCRIPT_FUNCTION_DOMAINS:
+                    yield (n.domain, n.op_type)
+                for a in n.attribute:
+                    if a.type == onnx.AttributeProto.GRAPH:
+                        yield from calls(a.g)
+
+        missing = sorted(set(calls(mp.graph)) | {c for f in mp.functions for c in calls(f)} - defined)
+        missing = [c for c in missing if c not in defined]
+        if missing:
+            verdicts.append(("model_proto:call_to_undefined_function", f"{missing} called but not among the model's functions {sorted(defined)}"))
     return verdicts, info
 
 
@@ -197,6 +239,8 @@ def run_shard(spec):
             col.skip("mutation_not_applicable")
             return
         source = scriptgen.program_src(prog)
+        if kind == "call_same_name_two_domains":
+            source = TWIN_SRC + source
         verdicts, info = evaluate(source, prog, kind)
         refused = "refused" in info
         nontrivial = (refused and kind != "none") or (not refused and has_subgraph(prog.body))
